@@ -138,8 +138,11 @@ def gen_c12_case(rng: random.Random):
                 if case["wr"] is None or all(r in [x[0] for x in case["wr"]] for r in regs):
                     case["bad"] = None
             elif b == "negative_sector_weight":
-                case["ws"] = [[s, (-1.0 if i == 0 else 3.0)] for i, s in enumerate(secs)]
-                if len(secs) == 1:
+                # a weight vector is a function of the label: one entry per distinct sector (the list of affected
+                # sectors may name a sector twice, which is documented as valid)
+                usecs = list(dict.fromkeys(secs))
+                case["ws"] = [[s, (-1.0 if i == 0 else 3.0)] for i, s in enumerate(usecs)]
+                if len(usecs) == 1:
                     case["bad"] = None
                     case["ws"] = None
     else:
@@ -683,7 +686,7 @@ def explore_c16(tier, seed):
                         ends.append("exc:overprod")
                     else:
                         ends.append("exc:distribution")
-                ans = dr.ask({"op": "records", "saved": saved, "registerStocks": reg, "ends": ends, "T": sc["T"]})
+                ans = dr.ask({"op": "records", "saved": saved, "registerStocks": reg, "ends": ends, "T": sc["T"], "dt": int(sc["model"]["dt"])})
                 res["corr_obligations"] += 1
                 ok_pattern = True
                 T = sc["T"]
